@@ -12,7 +12,7 @@ import os
 import random
 import subprocess
 
-from lib import common, rtl, xgen, xref, xrun
+from lib import asmprog, common, rtl, xgen, xref, xrun
 from lib.common import Verdict
 
 
@@ -109,6 +109,28 @@ def run(tier, replay=None):
             and r["res"]["out"] and r["res"]["out"].get("ok") and r["res"]["out"]["ended"] == "exit"]
     v.count("programs_generated", len(items))
     v.count("well_defined_and_terminating", len(good))
+    # ---- hand-written-style assembly programs (shapes a compiler never emits: adjacent SVCs, backward LDAP as data, BRB tables)
+    hasm = common.build_cxx("h_asm", ["h_asm.cpp", "repo:hex.cpp"])
+    hsim = common.build_cxx("h_sim", ["h_sim.cpp", "repo:hex.cpp"])
+    nasm = 700 if tier == "quick" else 20000
+    aprogs = [asmprog.program(random.Random(rnd.randrange(1 << 62))) for _ in range(nasm)]
+    ares = common.run_harness(hasm, [(i, {"src": t}) for i, (t, _) in enumerate(aprogs)], args=["cases"], tag="c06asm")
+    acases = []
+    for i, (t, inp) in enumerate(aprogs):
+        r = ares[str(i)]
+        if r["status"] == "ok" and r["out"] and r["out"].get("ok"):
+            acases.append((i, {"file": common.unhex(r["out"]["file"]), "input": inp, "fill": 0, "maxcycles": 0, "hardlimit": 300000}))
+    sres = common.run_harness(hsim, acases, args=["cases"], tag="c06sim")
+    asm_good = []
+    for i, f in acases:
+        o = sres[str(i)]["out"] if sres[str(i)]["status"] == "ok" else None
+        if o and o["ended"] == "exit" and o["reads_before_write"] == 0:
+            asm_good.append({"tag": "asm:%d" % i, "src": aprogs[i][0], "console": f["input"], "files": {},
+                             "res": {"out": {"file": f["file"].hex(), "console": o["console"], "run_return": o["run_return"],
+                                             "consumed": o["consumed"], "events": o["events"]}}})
+    v.count("assembly_programs_generated", nasm)
+    v.count("assembly_programs_terminating_and_well_defined", len(asm_good))
+    good = asm_good[:max(1, nexe // 3)] + good
     # ---- (a) executables
     exe_recs = [(r["tag"], common.unhex(r["res"]["out"]["file"]), r["console"], r["files"]) for r in good[:nexe]]
     jobs = [(cli, exe_recs[i::W]) for i in range(W)]
